@@ -800,7 +800,15 @@ func (u *Unit) builtin(st *State, name string, x *ast.CallExpr) *Val {
 		u.panicAt(st, x)
 		return &Val{}
 	case "recover":
-		return u.freshVal(st, t, "recovered")
+		// Go semantics for a recover() reached while the deferred calls of this function run: during a panic it stops
+		// the panic and returns its (non-nil) value; otherwise it returns nil
+		if st.panicking {
+			st.panicking = false
+			v := u.freshVal(st, t, "recovered")
+			st.assumeFact(app("distinct", v.S, "0"))
+			return v
+		}
+		return &Val{T: t, S: "0"}
 	case "close", "print", "println", "clear":
 		for _, a := range x.Args {
 			u.eval(st, a)
@@ -969,6 +977,7 @@ func (u *Unit) applyContract(st *State, ct *Contract, sig *types.Signature, recv
 			snap.assume(g)
 		}
 		snap.ctl = "panic"
+		snap.panicking = true
 		snap.trace = append(snap.trace, fmt.Sprintf("%s call %s panics", u.pos(x), short))
 		u.panicSnaps = append(u.panicSnaps, snap)
 		u.panicSites = append(u.panicSites, fmt.Sprintf("%s.%d", short, n))
